@@ -51,6 +51,24 @@ pub struct LayerPlan {
 }
 
 impl LayerPlan {
+    /// a plan derived from the bits of `x` (for loops that do not go through proptest)
+    pub fn from_bits(x: u64) -> LayerPlan {
+        let place = |v: u64| match v % 3 {
+            0 => Place::File,
+            1 => Place::Env,
+            _ => Place::FileDecoyEnv,
+        };
+        LayerPlan {
+            fmt: (x % 4) as u8,
+            timeout: place(x >> 2),
+            secret: [SecretPlace::File, SecretPlace::SecretFile, SecretPlace::Env, SecretPlace::FileDecoySecretFile, SecretPlace::FileDecoyEnv][((x >> 5) % 5) as usize].clone(),
+            proxy: place(x >> 9),
+            limiter: place(x >> 12),
+            env_prefix: [None, Some("ROUTER".to_string()), Some("mc".to_string())][((x >> 15) % 3) as usize].clone(),
+            default_paths: (x >> 18) & 1 == 1,
+        }
+    }
+
     pub fn label(&self) -> String {
         format!("timeout:{:?} secret:{:?} proxy:{:?} limiter:{:?} prefix:{} paths:{}", self.timeout, self.secret, self.proxy, self.limiter, self.env_prefix.as_deref().unwrap_or("default"), if self.default_paths { "default" } else { "env" })
     }
@@ -126,6 +144,12 @@ fn toml_inline(v: &Value) -> String {
 /// Starts `verif SERVE` with the effective configuration `eff` (a JSON object in the shape of
 /// passage::config::Config, `address` included) spread over the layers as the plan says.
 pub fn start(eff: &Value, plan: &LayerPlan) -> Result<Layered, String> {
+    start_with(eff, plan, &[], &[])
+}
+
+/// `env_only`: (path into the configuration, environment key without prefix, value): the value is removed from
+/// the file and travels through the environment layer. `passthrough`: further variables of the child as they are.
+pub fn start_with(eff: &Value, plan: &LayerPlan, env_only: &[(Vec<&str>, &str, String)], passthrough: &[(String, String)]) -> Result<Layered, String> {
     let n = SEQ.fetch_add(1, Ordering::Relaxed);
     let base = std::env::current_exe().map_err(|e| e.to_string())?.parent().map(|p| p.to_path_buf()).unwrap_or_default();
     let dir = base.join("verif-layers").join(format!("{}-{n}", std::process::id()));
@@ -219,6 +243,17 @@ pub fn start(eff: &Value, plan: &LayerPlan) -> Result<Layered, String> {
         notes.push(format!("rate_limiter {l}/{d}s via {:?}", plan.limiter));
     }
 
+    for (path, suffix, value) in env_only {
+        let mut cur = &mut file;
+        for seg in &path[..path.len() - 1] {
+            cur = &mut cur[*seg];
+        }
+        if let Some(o) = cur.as_object_mut() {
+            o.remove(*path.last().unwrap());
+        }
+        env.push((key(suffix), value.clone()));
+        notes.push(format!("{} via Env", path.join(".")));
+    }
     let (ext, text) = match plan.fmt % 4 {
         0 => ("json", serde_json::to_string_pretty(&file).unwrap()),
         1 => ("yaml", serde_json::to_string_pretty(&file).unwrap()),
@@ -250,7 +285,7 @@ pub fn start(eff: &Value, plan: &LayerPlan) -> Result<Layered, String> {
     if let Some(p) = &plan.env_prefix {
         cmd.env("ENV_PREFIX", p);
     }
-    for (k, v) in &env {
+    for (k, v) in env.iter().chain(passthrough.iter()) {
         cmd.env(k, v);
     }
     let description = format!("{} file ({}); secret file: {}; environment: {:?}; {}", ext, if plan.default_paths { "default path" } else { "CONFIG_FILE" }, if secret_file.is_some() { "yes" } else { "no" }, env.iter().map(|(k, _)| k.as_str()).collect::<Vec<_>>(), notes.join(", "));
